@@ -50,7 +50,7 @@ Inductive fill_res :=
 
 Definition bw_fill_buf (b : bufwin) (r : rd) : fill_res :=
   let carry := length (win b) in
-  if Nat.leb (cap b) carry then FillOk 0 b r
+  if Nat.leb (cap b) carry then (if Nat.eqb (cap b) 0 then FillOk 0 b r else FillFull b r)
   else
     let b1 := mkbw (cap b) (win b) 0 (prior b + consumed b) in
     match rd_read r (cap b - carry) with
